@@ -49,6 +49,19 @@ structure GlobalState where
   what : String
   deriving DecidableEq, Repr
 
+inductive ArgShape | name | indexByName | basicSlice | other
+  deriving DecidableEq, Repr
+
+/-- an argument at a call site of a per-window function -/
+structure CallArg where
+  file : String
+  fn : String
+  callee : String
+  param : String
+  text : String
+  shape : ArgShape
+  deriving DecidableEq, Repr
+
 /-! ## provenance and the TRUSTED numpy classification -/
 
 /-- the caller's buffers: 0 obs, 1 cm_hist, 2 cm_future, 3 time_obs, 4 time_cm_hist, 5 time_cm_future -/
@@ -721,6 +734,69 @@ def modelledPairs : List (Fn × V) :=
 /-- every store of every body corresponds to a listed write site -/
 def storesListed (c : Cfg) : Bool :=
   allFns.all (fun fn => (storesOf fn (body c fn)).all (fun p => modelledPairs.contains p))
+
+/-! ## what the per-window functions are handed -/
+
+/-- every argument at the call sites of `apply_on_window` / `_apply_on_within_year_window` / `_apply_on_window` /
+    `_apply_debiasing_steps`, with the numpy operation it is (read off the source: `indices_*` come from
+    `np.where(...)[0]` — integer arrays, fancy indexing; `mask_*` are comparisons / `np.isin` — boolean indexing) -/
+def callArgsJ : List (CallArg × NpOp) := [
+  (⟨"ibicus/debias/_cdft.py", "CDFt.apply_on_window", "_apply_debiasing_steps", "obs", "obs", .name⟩, .name),
+  (⟨"ibicus/debias/_cdft.py", "CDFt.apply_on_window", "_apply_debiasing_steps", "cm_hist", "cm_hist", .name⟩, .name),
+  (⟨"ibicus/debias/_cdft.py", "CDFt.apply_on_window", "_apply_debiasing_steps", "cm_future", "cm_future[mask_years_in_window]", .indexByName⟩, .boolIndex),
+  (⟨"ibicus/debias/_cdft.py", "CDFt.apply_on_window", "_apply_debiasing_steps", "arg0", "obs", .name⟩, .name),
+  (⟨"ibicus/debias/_cdft.py", "CDFt.apply_on_window", "_apply_debiasing_steps", "arg1", "cm_hist", .name⟩, .name),
+  (⟨"ibicus/debias/_cdft.py", "CDFt.apply_on_window", "_apply_debiasing_steps", "arg2", "cm_future", .name⟩, .name),
+  (⟨"ibicus/debias/_delta_change.py", "DeltaChange.apply_location", "_apply_on_within_year_window", "obs", "obs[indices_window_obs]", .indexByName⟩, .fancyIndex),
+  (⟨"ibicus/debias/_delta_change.py", "DeltaChange.apply_location", "_apply_on_within_year_window", "cm_hist", "cm_hist[indices_window_cm_hist]", .indexByName⟩, .fancyIndex),
+  (⟨"ibicus/debias/_delta_change.py", "DeltaChange.apply_location", "_apply_on_within_year_window", "cm_future", "cm_future[indices_window_cm_future]", .indexByName⟩, .fancyIndex),
+  (⟨"ibicus/debias/_delta_change.py", "DeltaChange.apply_location", "_apply_on_within_year_window", "arg0", "obs", .name⟩, .name),
+  (⟨"ibicus/debias/_delta_change.py", "DeltaChange.apply_location", "_apply_on_within_year_window", "arg1", "cm_hist", .name⟩, .name),
+  (⟨"ibicus/debias/_delta_change.py", "DeltaChange.apply_location", "_apply_on_within_year_window", "arg2", "cm_future", .name⟩, .name),
+  (⟨"ibicus/debias/_isimip.py", "ISIMIP.apply_location", "_apply_on_window", "obs_hist", "obs[indices_window_obs]", .indexByName⟩, .fancyIndex),
+  (⟨"ibicus/debias/_isimip.py", "ISIMIP.apply_location", "_apply_on_window", "cm_hist", "cm_hist[indices_window_cm_hist]", .indexByName⟩, .fancyIndex),
+  (⟨"ibicus/debias/_isimip.py", "ISIMIP.apply_location", "_apply_on_window", "cm_future", "cm_future[indices_window_cm_future]", .indexByName⟩, .fancyIndex),
+  (⟨"ibicus/debias/_isimip.py", "ISIMIP.apply_location", "_apply_on_window", "years_obs_hist", "years_obs[indices_window_obs]", .indexByName⟩, .fancyIndex),
+  (⟨"ibicus/debias/_isimip.py", "ISIMIP.apply_location", "_apply_on_window", "years_cm_hist", "years_cm_hist[indices_window_cm_hist]", .indexByName⟩, .fancyIndex),
+  (⟨"ibicus/debias/_isimip.py", "ISIMIP.apply_location", "_apply_on_window", "years_cm_future", "years_cm_future[indices_window_cm_future]", .indexByName⟩, .fancyIndex),
+  (⟨"ibicus/debias/_isimip.py", "ISIMIP.apply_location", "_apply_on_window", "obs_hist", "obs[mask_i_month_in_obs]", .indexByName⟩, .boolIndex),
+  (⟨"ibicus/debias/_isimip.py", "ISIMIP.apply_location", "_apply_on_window", "cm_hist", "cm_hist[mask_i_month_in_cm_hist]", .indexByName⟩, .boolIndex),
+  (⟨"ibicus/debias/_isimip.py", "ISIMIP.apply_location", "_apply_on_window", "cm_future", "cm_future[mask_i_month_in_cm_future]", .indexByName⟩, .boolIndex),
+  (⟨"ibicus/debias/_isimip.py", "ISIMIP.apply_location", "_apply_on_window", "years_obs_hist", "years_obs[mask_i_month_in_obs]", .indexByName⟩, .boolIndex),
+  (⟨"ibicus/debias/_isimip.py", "ISIMIP.apply_location", "_apply_on_window", "years_cm_hist", "years_cm_hist[mask_i_month_in_cm_hist]", .indexByName⟩, .boolIndex),
+  (⟨"ibicus/debias/_isimip.py", "ISIMIP.apply_location", "_apply_on_window", "years_cm_future", "years_cm_future[mask_i_month_in_cm_future]", .indexByName⟩, .boolIndex),
+  (⟨"ibicus/debias/_quantile_delta_mapping.py", "QuantileDeltaMapping.apply_on_window", "_apply_debiasing_steps", "cm_future", "cm_future[mask_years_in_window]", .indexByName⟩, .boolIndex),
+  (⟨"ibicus/debias/_quantile_delta_mapping.py", "QuantileDeltaMapping.apply_on_window", "_apply_debiasing_steps", "fit_obs", "fit_obs", .name⟩, .name),
+  (⟨"ibicus/debias/_quantile_delta_mapping.py", "QuantileDeltaMapping.apply_on_window", "_apply_debiasing_steps", "fit_cm_hist", "fit_cm_hist", .name⟩, .name),
+  (⟨"ibicus/debias/_quantile_delta_mapping.py", "QuantileDeltaMapping.apply_on_window", "_apply_debiasing_steps", "cm_future", "cm_future", .name⟩, .name),
+  (⟨"ibicus/debias/_quantile_delta_mapping.py", "QuantileDeltaMapping.apply_on_window", "_apply_debiasing_steps", "fit_obs", "fit_obs", .name⟩, .name),
+  (⟨"ibicus/debias/_quantile_delta_mapping.py", "QuantileDeltaMapping.apply_on_window", "_apply_debiasing_steps", "fit_cm_hist", "fit_cm_hist", .name⟩, .name),
+  (⟨"ibicus/debias/_running_window_debiaser.py", "RunningWindowDebiaser.apply_location", "apply_on_window", "obs", "obs[indices_window_obs]", .indexByName⟩, .fancyIndex),
+  (⟨"ibicus/debias/_running_window_debiaser.py", "RunningWindowDebiaser.apply_location", "apply_on_window", "cm_hist", "cm_hist[indices_window_cm_hist]", .indexByName⟩, .fancyIndex),
+  (⟨"ibicus/debias/_running_window_debiaser.py", "RunningWindowDebiaser.apply_location", "apply_on_window", "cm_future", "cm_future[indices_window_cm_future]", .indexByName⟩, .fancyIndex),
+  (⟨"ibicus/debias/_running_window_debiaser.py", "RunningWindowDebiaser.apply_location", "apply_on_window", "time_obs", "time_obs[indices_window_obs]", .indexByName⟩, .fancyIndex),
+  (⟨"ibicus/debias/_running_window_debiaser.py", "RunningWindowDebiaser.apply_location", "apply_on_window", "time_cm_hist", "time_cm_hist[indices_window_cm_hist]", .indexByName⟩, .fancyIndex),
+  (⟨"ibicus/debias/_running_window_debiaser.py", "RunningWindowDebiaser.apply_location", "apply_on_window", "time_cm_future", "time_cm_future[indices_window_cm_future]", .indexByName⟩, .fancyIndex),
+  (⟨"ibicus/debias/_running_window_debiaser.py", "RunningWindowDebiaser.apply_location", "apply_on_window", "arg0", "obs", .name⟩, .name),
+  (⟨"ibicus/debias/_running_window_debiaser.py", "RunningWindowDebiaser.apply_location", "apply_on_window", "arg1", "cm_hist", .name⟩, .name),
+  (⟨"ibicus/debias/_running_window_debiaser.py", "RunningWindowDebiaser.apply_location", "apply_on_window", "arg2", "cm_future", .name⟩, .name),
+  (⟨"ibicus/debias/_running_window_debiaser.py", "RunningWindowDebiaser.apply_location", "apply_on_window", "time_obs", "time_obs", .name⟩, .name),
+  (⟨"ibicus/debias/_running_window_debiaser.py", "RunningWindowDebiaser.apply_location", "apply_on_window", "time_cm_hist", "time_cm_hist", .name⟩, .name),
+  (⟨"ibicus/debias/_running_window_debiaser.py", "RunningWindowDebiaser.apply_location", "apply_on_window", "time_cm_future", "time_cm_future", .name⟩, .name)]
+
+def callArgs : List CallArg := callArgsJ.map (·.1)
+
+/-- the classification is consistent with the syntactic shape: a bare name is name passing, `x[name]` is fancy or
+    boolean indexing; no basic slice and nothing unrecognised is handed to a window function -/
+def callArgOk : CallArg × NpOp → Bool
+  | (a, op) => match a.shape with
+      | .name => op == .name
+      | .indexByName => op == .fancyIndex || op == .boolIndex
+      | .basicSlice | .other => false
+
+/-- ISIMIP's window function — which writes into its arguments (steps 2 and 4) — is never handed an alias -/
+def isimipWindowArgsFresh : Bool :=
+  callArgsJ.all (fun ao => !(ao.1.callee.toList == "_apply_on_window".toList) || !ao.2.aliases)
 
 /-! ## the `self.<attr> = …` table -/
 
